@@ -340,6 +340,7 @@ def open_site(X, call, node, result_T=None, rely=None, raises=None, reenter=True
             for cname, role, f in spec.wf_clauses(X, obj):
                 oblige_split(X, '%s:wf-at-callback[%s].%s' % (X.fn_name, name, cname), f,
                              'wf-at-callback', 'aux', assume_after=True)
+    site = spec.site_config(X, node)
     if reenter:
         for obj in rely:
             from .spec import oblige_split
@@ -354,8 +355,15 @@ def open_site(X, call, node, result_T=None, rely=None, raises=None, reenter=True
         try:
             for obj in rely:
                 X.assume(spec.wf_formula(X, obj))
-                for extra in spec.rely_extra(X, obj):
-                    X.assume(extra)
+                if 'rely' in site:
+                    # site-specific two-state assumption on the callee (listed)
+                    for rname, rtext in site['rely']:
+                        X.assume(spec.eval_bool(X, rtext, {'self': obj}))
+                        spec.note_assumption('site %s: callee satisfies %s (%s)'
+                                             % (X.fn_name, rname, rtext))
+                else:
+                    for extra in spec.rely_extra(X, obj):
+                        X.assume(extra)
         finally:
             X.old_stack.pop()
     else:
